@@ -21,6 +21,7 @@ pub mod rtp;
 pub mod ice;
 pub mod dtls;
 pub mod sctp;
+pub mod media;
 
 // ---------------------------------------------------------------------------------------------
 // counting allocator
@@ -244,6 +245,7 @@ fn replay(case: &str) {
     if !done { done = rtp::replay_special(&mut run, stream, &args); }
     if !done { done = ice::replay_special(&mut run, stream, &args); }
     if !done { done = sctp::replay_special(&mut run, stream, &args); }
+    if !done { done = media::replay_special(&mut run, stream, &args); }
     if !done { println!("unknown stream {stream}"); }
     for f in &run.fails { println!("ORACLE-FAIL {} :: {}", f.signature, f.detail); }
     let _ = std::fs::remove_dir_all("/tmp/c07-replay");
@@ -263,7 +265,9 @@ pub fn run(args: &Args) {
     rtp::special(&mut run, &mut rng.fork(), args.tier_thorough);
     ice::special(&mut run, &mut rng.fork(), args.tier_thorough);
     sctp::special(&mut run, &mut rng.fork(), args.tier_thorough);
+    media::special(&mut run, &mut rng.fork(), args.tier_thorough);
     run.notes.insert("targets".into(), serde_json::json!(targets.iter().map(|t| t.stream).collect::<Vec<_>>()));
     run.notes.insert("type_sizes".into(), rtp::type_sizes());
+    run.notes.insert("type_sizes_media".into(), media::type_sizes());
     run.finish();
 }
